@@ -140,7 +140,9 @@ def strat_batchgcd(tier):
 def _len_desc(L, variant):
   """L distinct values p_i*p_j over a pool of about L primes (deterministic)."""
   mat = Material(variant * 1000003 + L, 'c03len')
-  npool = max(3, L if variant % 2 == 0 else 2 * L)
+  # dense to sparse sharing: with a pool of L primes most values are fully covered by
+  # their neighbours (gcd == value); with 8L most values share nothing
+  npool = max(3, L * (1, 2, 4, 8)[variant % 4])
   seen = set()
   vals = []
   while len(vals) < L:
@@ -155,11 +157,11 @@ def _len_desc(L, variant):
     for _ in range(1 + mat.below(3)):
       vals.insert(mat.below(len(vals) + 1), vals[mat.below(len(vals))])
   return {'pb': 20 + variant % 13, 'np': npool, 'm': variant * 7919 + L, 'vals': vals,
-          'other': None if variant % 4 else [0, 1], 'mpz': True}
+          'other': None if variant % 5 else [0, 1], 'mpz': True}
 
 
 def enum_len(tier):
-  variants = 3 if tier == 'quick' else 12
+  variants = 4 if tier == 'quick' else 16
   for L in range(0, 131):
     for v in range(variants):
       yield _len_desc(L, v)
